@@ -1,19 +1,26 @@
 #!/venv/bin/python
 """tools/mutant.py <patch.diff> <Cxx> [<Cyy> ...]: apply a seeded change to /repo, run the given checks (quick), undo it.
 Prints one line per check: caught / MISSED. Never leaves /repo modified."""
+import os
+import shutil
 import subprocess
 import sys
 
-patch, props = sys.argv[1], sys.argv[2:]
+patch, props = os.path.abspath(sys.argv[1]), sys.argv[2:]
 assert subprocess.run(['git', '-C', '/repo', 'status', '--porcelain', '--untracked-files=no'], capture_output=True, text=True).stdout.strip() == '', '/repo not clean'
 subprocess.check_call(['git', '-C', '/repo', 'apply', patch])
 try:
     for p in props:
+        ev = '/verif/evidence/%s.json' % p
+        if os.path.exists(ev):
+            shutil.copy(ev, ev + '.keep')
         r = subprocess.run(['/verif/bin/check', p], capture_output=True, text=True, cwd='/verif')
         viol = [l for l in r.stdout.splitlines() if l.startswith('VIOLATION') or l.startswith('  what')]
         print('%s %s rc=%d' % (p, 'caught' if r.returncode == 1 and viol else 'MISSED', r.returncode))
         for l in viol[:4]:
             print('    ' + l[:300])
         print('    ' + r.stdout.strip().splitlines()[-1])
+        if os.path.exists(ev + '.keep'):
+            os.replace(ev + '.keep', ev)   # evidence files describe runs on the unchanged tree only
 finally:
     subprocess.check_call(['git', '-C', '/repo', 'checkout', '--', '.'])
